@@ -36,7 +36,8 @@ META = {
                    "hypothesis of the theorem and is checked on every implementation state used."),
     'rule': ("cases = generated force fields (0-4 links, some not applicable) x residue graphs of 2-7 residues (path/tree/ring); "
              "non-trivial = at least one residue edge with and one without an atom-level edge, or a link that applies; distinct by "
-             "(force-field text, graph)"),
+             "(force-field text, graph)"
+             "; directed / added families (waves 10-12): multi-residue (from_itp) blocks with interleaved atoms"),
 }
 
 PRELUDE = """From PV Require Import Graph Missing.
